@@ -178,10 +178,17 @@ func sdkValid(p sdkPolicy) bool {
 		return false
 	}
 	for _, l := range [][]sdkRule{p.Deny, p.Allow} {
+		seen := map[string]bool{}
 		for _, r := range l {
 			if r.Name == "" {
 				return false
 			}
+			// rule names must be unique within deny_rules and within allow_rules
+			// (rules are keyed by name; a repeated name would shadow a rule)
+			if seen[r.Name] {
+				return false
+			}
+			seen[r.Name] = true
 			if r.Request == nil {
 				continue
 			}
@@ -249,29 +256,13 @@ func sdkRuleMatches(r sdkRule, q *refReq) bool {
 	return true
 }
 
-func sdkAllows(p sdkPolicy, q *refReq, lastWins bool) bool {
-	eff := func(l []sdkRule) []sdkRule {
-		if !lastWins {
-			return l
-		}
-		var out []sdkRule
-		for i, r := range l {
-			shadowed := false
-			for _, later := range l[i+1:] {
-				shadowed = shadowed || later.Name == r.Name
-			}
-			if !shadowed {
-				out = append(out, r)
-			}
-		}
-		return out
-	}
-	for _, r := range eff(p.Deny) {
+func sdkAllows(p sdkPolicy, q *refReq) bool {
+	for _, r := range p.Deny {
 		if sdkRuleMatches(r, q) {
 			return false
 		}
 	}
-	for _, r := range eff(p.Allow) {
+	for _, r := range p.Allow {
 		if sdkRuleMatches(r, q) {
 			return true
 		}
@@ -313,24 +304,20 @@ func runAuthz(_ *testing.T, p authzPlan) (res vk.Result) {
 	}
 	valid := sdkValid(p.Policy)
 	si, err := authz.NewStatic(string(text))
+	dup := hasDupNames(p.Policy)
 	if !valid {
 		if err == nil {
-			return vk.Bad("NewStatic accepted a policy that violates the documented validation rules: %s", text)
+			return vk.Bad("NewStatic accepted a policy that violates the validation rules (missing names, unsupported header keys, empty values, no allow rules, rule name repeated within a list): %s", text)
+		}
+		if dup {
+			return vk.OK(true, "policy_rejected", "duplicate_rule_names_rejected")
 		}
 		return vk.OK(false, "policy_rejected")
-	}
-	dup := hasDupNames(p.Policy)
-	if err != nil && dup {
-		// the statement quantifies over policies the translator accepts
-		return vk.OK(false, "duplicate_rule_names_rejected")
 	}
 	if err != nil {
 		return vk.Bad("NewStatic rejected a valid policy %s: %v", text, err)
 	}
 	cls := map[string]bool{}
-	if dup {
-		cls["duplicate_rule_names"] = true
-	}
 	wild, sameAcross := false, false
 	for _, l := range [][]sdkRule{p.Policy.Deny, p.Policy.Allow} {
 		for _, r := range l {
@@ -373,7 +360,7 @@ func runAuthz(_ *testing.T, p authzPlan) (res vk.Result) {
 	}
 	for i, r := range p.Reqs {
 		ctx, ref := buildCtx(r)
-		want := sdkAllows(p.Policy, ref, false)
+		want := sdkAllows(p.Policy, ref)
 		called := false
 		stream := i < len(p.Stream) && p.Stream[i]
 		if stream {
@@ -398,13 +385,7 @@ func runAuthz(_ *testing.T, p authzPlan) (res vk.Result) {
 		if got == want {
 			continue
 		}
-		v := vk.Bad("policy %s request %d %+v: policy semantics say allowed=%v, interceptor allowed=%v", text, i, r, want, got)
-		if dup && sdkAllows(p.Policy, ref, true) == got {
-			// known shape: rules sharing a name overwrite each other in the
-			// translator's map, only the last one of each name is enforced
-			v.Sig = "c48.duplicate_rule_name_shadowed"
-		}
-		return v
+		return vk.Bad("policy %s request %d %+v: policy semantics say allowed=%v, interceptor allowed=%v", text, i, r, want, got)
 	}
 	res = vk.Result{NonTrivial: len(p.Policy.Deny) > 0 && wild}
 	for k := range cls {
@@ -416,7 +397,7 @@ func runAuthz(_ *testing.T, p authzPlan) (res vk.Result) {
 func TestVerifC48Authz(t *testing.T) {
 	vk.Check(t, vk.Unit[authzPlan]{
 		ID: "C48", Name: "authz",
-		Rule: "SDK policies with 0-4 deny and 1-4 allow rules (unique names within a list; the same name may appear in both lists), principals/paths/header values as exact, prefix*, *suffix, * and odd patterns, header keys in mixed case; one case in six contains a documented-invalid element (missing name, unsupported header key, empty values, no allow rules) and must be rejected; 1-4 requests through the unary or stream interceptor. non-trivial = accepted policy with deny rules and at least one wildcard pattern",
+		Rule: "SDK policies with 0-4 deny and 1-4 allow rules (unique names within a list; the same name may appear in both lists), principals/paths/header values as exact, prefix*, *suffix, * and odd patterns, header keys in mixed case; one case in six contains an invalid element (missing name, unsupported header key, empty values, no allow rules) and must be rejected; 1-4 requests through the unary or stream interceptor. non-trivial = accepted policy with deny rules and at least one wildcard pattern",
 		Gen:  genAuthz(false), Run: runAuthz,
 	})
 }
@@ -424,7 +405,7 @@ func TestVerifC48Authz(t *testing.T) {
 func TestVerifC48AuthzDupNames(t *testing.T) {
 	vk.Check(t, vk.Unit[authzPlan]{
 		ID: "C48", Name: "authz_dupnames",
-		Rule: "as unit authz (valid policies only) but at least two rules of one list share a name. non-trivial = accepted policy with deny rules and at least one wildcard pattern",
+		Rule: "as unit authz but at least two rules of deny_rules or of allow_rules share a name: such a policy must be rejected by NewStatic (before repo commit 610d1e6 the later rule silently replaced the earlier one, dropping e.g. a deny rule). non-trivial = the policy has a repeated name and was rejected",
 		Gen:  genAuthz(true), Run: runAuthz,
 	})
 }
